@@ -41,10 +41,11 @@
 ; @block strcat requires GoString
 (declare-fun strcat (GoString GoString) GoString)
 (assert (forall ((a GoString) (b GoString)) (! (= (strlen (strcat a b)) (+ (strlen a) (strlen b))) :pattern ((strcat a b)))))
-; @block bytes2str requires GoString Slice_Int
-(declare-fun bytes2str (Slice_Int) GoString)
 ; @block str2bytes requires GoString Slice_Int
+(declare-fun bytes2str (Slice_Int) GoString)
 (declare-fun str2bytes (GoString) Slice_Int)
+(assert (forall ((s GoString)) (! (= (bytes2str (str2bytes s)) s) :pattern ((str2bytes s)))))
+(assert (forall ((b Slice_Int)) (! (= (strlen (bytes2str b)) (slen_Int b)) :pattern ((bytes2str b)))))
 (assert (forall ((s GoString)) (! (and (= (slen_Int (str2bytes s)) (strlen s)) (not (snil_Int (str2bytes s)))) :pattern ((str2bytes s)))))
 
 ; @block be16at requires Slice_Int
@@ -86,3 +87,28 @@
   (= (+ (* 72057594037927936 (select (sarr_Int (appendbe c 8 v)) (slen_Int c))) (* 281474976710656 (select (sarr_Int (appendbe c 8 v)) (+ (slen_Int c) 1))) (* 1099511627776 (select (sarr_Int (appendbe c 8 v)) (+ (slen_Int c) 2))) (* 4294967296 (select (sarr_Int (appendbe c 8 v)) (+ (slen_Int c) 3))) (* 16777216 (select (sarr_Int (appendbe c 8 v)) (+ (slen_Int c) 4))) (* 65536 (select (sarr_Int (appendbe c 8 v)) (+ (slen_Int c) 5))) (* 256 (select (sarr_Int (appendbe c 8 v)) (+ (slen_Int c) 6))) (select (sarr_Int (appendbe c 8 v)) (+ (slen_Int c) 7))) v))) :pattern ((appendbe c 8 v)))))
 (assert (forall ((c Slice_Int) (p Slice_Int)) (! (and (= (slen_Int (catbytes c p)) (+ (slen_Int c) (slen_Int p))) (not (snil_Int (catbytes c p)))) :pattern ((catbytes c p)))))
 (assert (forall ((c Slice_Int) (p Slice_Int) (i Int)) (! (= (select (sarr_Int (catbytes c p)) i) (ite (< i (slen_Int c)) (select (sarr_Int c) i) (select (sarr_Int p) (- i (slen_Int c))))) :pattern ((select (sarr_Int (catbytes c p)) i)))))
+
+; @block bigparse requires GoString
+; (assumed) big.Int.SetString(s, 10): parses10(s) says whether s is a decimal integer
+; (optional sign), parse10(s) is its value (any integer, including negative)
+(declare-fun parses10 (GoString) Bool)
+(declare-fun parse10 (GoString) Int)
+
+; @block hexcodec requires GoString Slice_Int block:hexs
+; (assumed) hex.DecodeString / hex.EncodeToString are inverse on encodings
+(declare-fun hexok (GoString) Bool)
+(declare-fun unhex (GoString) Slice_Int)
+(assert (forall ((s GoString)) (! (=> (hexok s) (and (= (* 2 (slen_Int (unhex s))) (strlen s)) (not (snil_Int (unhex s))))) :pattern ((unhex s)))))
+(assert (forall ((b Slice_Int)) (! (and (hexok (hexs b)) (= (strlen (hexs b)) (* 2 (slen_Int b))) (= (slen_Int (unhex (hexs b))) (slen_Int b))) :pattern ((hexs b)))))
+(assert (forall ((b Slice_Int) (i Int)) (! (=> (and (<= 0 i) (< i (slen_Int b))) (= (select (sarr_Int (unhex (hexs b))) i) (select (sarr_Int b) i))) :pattern ((select (sarr_Int (unhex (hexs b))) i)))))
+
+; @block b58 requires GoString Slice_Int
+; (assumed) base58.Decode(base58.Encode(b)) = b
+(declare-fun b58enc (Slice_Int) GoString)
+(declare-fun b58dec (GoString) Slice_Int)
+(assert (forall ((b Slice_Int)) (! (= (slen_Int (b58dec (b58enc b))) (slen_Int b)) :pattern ((b58enc b)))))
+(assert (forall ((b Slice_Int) (i Int)) (! (=> (and (<= 0 i) (< i (slen_Int b))) (= (select (sarr_Int (b58dec (b58enc b))) i) (select (sarr_Int b) i))) :pattern ((select (sarr_Int (b58dec (b58enc b))) i)))))
+
+; @block trimzero requires GoString Slice_Int
+; (assumed) string(bytes.Trim(bs, "\x00")): uninterpreted function of the byte content
+(declare-fun trimzero (Slice_Int) Slice_Int)
